@@ -48,6 +48,8 @@ FIRST = [0x00, 0x09, 0x0a, 0x0f, 0x10, 0x1f, 0x9f, 0xa0, 0xaf, 0xf0, 0xff]
 INDICES = [0, 0, 1, 1, 2, 3, 9, 10, 11, 20, 100, 255, 256, 1000]
 N_KEY_ADDRS = 4
 SCRIPT_ADDR = 4
+PLUTUS_ADDR = 5          # address of a Plutus V2 script: spending from it makes the builder pick collateral
+FAMILIES = [('std', 58), ('improve', 8), ('improve2', 10), ('plutus', 12), ('moving', 12)]
 
 
 def txids(rng, k):
@@ -116,13 +118,25 @@ def sel_config(rng):
 
 
 def gen_case(rng):
+    """families: std = the general history; improve = token-rich pool, small multi-asset request, randomized strategy with
+    low-index streams (the improvement phases of several assets draw from one shrinking pool); plutus = a Plutus script input,
+    so that build() also picks collateral (from its inputs, the potential inputs, the context's list for the change address);
+    moving = the chain moves between two builds of one builder (UTxOs of a registered address are spent elsewhere, new ones
+    arrive) and the second build needs more inputs"""
+    family = rng.choices([f for f, _ in FAMILIES], [w for _, w in FAMILIES])[0]
+    if family == 'improve2':
+        return gen_improve(rng)
     n = rng.choice([2, 3, 4, 4, 5, 6, 7, 8, 10, 12])
+    if family == 'improve':
+        n = rng.choice([8, 10, 12])
     ids = txids(rng, rng.choice([1, 2, 2, 3, 4]))
     refs = set()
     utxos, payloads, inst = [], [], []
     roles = []                  # per utxo: set of routes
-    with_script = rng.random() < 0.12
-    tokens_on = rng.random() < 0.35
+    with_script = family == 'std' and rng.random() < 0.12
+    with_plutus = family == 'plutus'
+    tokens_on = rng.random() < 0.35 or family == 'improve'
+    p_tok = 0.8 if family == 'improve' else 0.4
     for k in range(n):
         while True:
             r = (rng.choice(ids), rng.choice(INDICES))
@@ -131,11 +145,20 @@ def gen_case(rng):
         addr = rng.randrange(N_KEY_ADDRS) if rng.random() < 0.5 else 0
         if with_script and k == 0:
             addr = SCRIPT_ADDR
+        if with_plutus and k == 0:
+            addr = PLUTUS_ADDR
         coin = rng.choice([1500000, 2 * ADA, 3 * ADA, 5 * ADA, 8 * ADA, 12 * ADA, 30 * ADA]) + k      # unique per payload
         toks = []
-        if tokens_on and rng.random() < 0.4:
+        if family == 'improve':                       # many small UTxOs, about half of them with a few tokens
+            coin = rng.choice([1500000, 2 * ADA, 2 * ADA, 3 * ADA, 5 * ADA]) + k
+            if rng.random() < 0.5:
+                toks = [(t, rng.choice([2, 3, 6])) for t in rng.sample(TOKENS[:2], rng.choice([1, 1, 2]))]
+                coin = max(coin, 2 * ADA + k)
+        elif tokens_on and rng.random() < p_tok:
             toks = [(t, rng.choice([1, 5, 40])) for t in rng.sample(TOKENS, rng.randint(1, 2))]
             coin = max(coin, 3 * ADA + k)
+        if with_plutus and k == 0:
+            coin = rng.choice([2 * ADA, 8 * ADA, 30 * ADA]) + k
         payloads.append([addr, coin, mk_ma(toks)])
         utxos.append([r[0], r[1], k])
         inst.append([k, rng.choice([0, 0, 0, 1, 2])])
@@ -153,7 +176,7 @@ def gen_case(rng):
             return len(inst) - 1
         return ui                                       # instance k (k < nu) is the canonical object of utxo k
 
-    reg, ctx_lists = [], {a: [] for a in range(N_KEY_ADDRS + 1)}
+    reg, ctx_lists = [], {a: [] for a in range(N_KEY_ADDRS + 2)}
     routes = [set() for _ in range(nu)]
     for ui in range(nu):
         addr = payloads[utxos[ui][2]][0]
@@ -162,7 +185,10 @@ def gen_case(rng):
                 reg.append(['sin', an_instance(ui)]); routes[ui].add('e')
                 if rng.random() < 0.3:
                     reg.append(['sin', an_instance(ui)])
-        elif rng.random() < 0.25:
+        elif addr == PLUTUS_ADDR:
+            if rng.random() < 0.95:
+                reg.append(['psin', ui]); routes[ui].add('e')
+        elif rng.random() < (0.25 if family != 'improve' else 0.1):
             reg.append(['in', an_instance(ui)]); routes[ui].add('e')
             if rng.random() < 0.3:
                 reg.append(['in', an_instance(ui)])
@@ -195,12 +221,12 @@ def gen_case(rng):
     iu = lambda k: inst[k][0]
     reg_addrs = {r[1] for r in reg if r[0] == 'addr'}
     excl = {iu(r[1]) for r in reg if r[0] == 'exc'} | {iu(x) for r in reg if r[0] == 'setexc' for x in r[1]}
-    expl = {iu(r[1]) for r in reg if r[0] in ('in', 'sin')}
+    expl = {iu(r[1]) for r in reg if r[0] in ('in', 'sin', 'psin')}
     poolset = ({iu(r[1]) for r in reg if r[0] == 'pot'} | {iu(x) for a in reg_addrs for x in ctx_lists[a]}) - excl - expl
     exp_sum = sum(coin_of(ui) for ui in expl)
     avail = sum(coin_of(ui) for ui in poolset)
     pool_tokens = [t for ui in poolset for t in payloads[utxos[ui][2]][2]]
-    mode = rng.choices(['noneed', 'need', 'toomuch'], [14, 76, 10])[0]
+    mode = rng.choices(['noneed', 'need', 'toomuch'], [14, 76, 10] if family != 'plutus' else [50, 45, 5])[0]
     if mode == 'noneed' and exp_sum > 4 * ADA:
         want = rng.randint(ADA, exp_sum - 3 * ADA)
     elif mode == 'toomuch':
@@ -208,12 +234,17 @@ def gen_case(rng):
     else:
         want = exp_sum + int(avail * rng.choice([0.02, 0.1, 0.25, 0.4, 0.6, 0.8])) + rng.choice([0, 1, ADA])
     want = max(want, ADA)
+    if family == 'improve':                           # a fraction of the pool: the improvement phases have room
+        want = exp_sum + int(avail * rng.choice([0.2, 0.25, 0.33, 0.4]))
     outs = []
     k = rng.choice([1, 1, 2])
     for j in range(k):
         part = want // k if j < k - 1 else want - (want // k) * (k - 1)
         toks = []
-        if tokens_on and rng.random() < 0.4:
+        if family == 'improve' and pool_tokens:       # 1-3 token kinds the pool holds, small quantities
+            kinds = sorted({(p_, nm[0]) for p_, names_ in pool_tokens for nm in names_})
+            toks = [(t, rng.choice([3, 5, 6])) for t in rng.sample(kinds, min(len(kinds), rng.choice([1, 1, 2])))]
+        elif tokens_on and rng.random() < 0.4:
             if pool_tokens and rng.random() < 0.8:
                 p_, names_ = rng.choice(pool_tokens)
                 toks = [((p_, names_[0][0]), rng.choice([1, 1, 3]))]
@@ -246,10 +277,80 @@ def gen_case(rng):
         items += extra + [['build', dict(change=change if rng.random() < 0.8 else None, merge=bopt['merge'])]]
         if m < 0.06:
             items += [['setexc', []], ['build', dict(change=None, merge=False)]]
+    if family == 'moving':
+        # the chain moves: at 1-2 addresses some reported UTxOs disappear, new ones arrive; then more is requested
+        cur = {a: list(l) for a, l in ctx_lists.items()}
+        for _ in range(rng.randint(1, 2)):
+            for a in rng.sample(sorted(cur), rng.randint(1, 2)):
+                keep = [x for x in cur[a] if rng.random() < 0.5]
+                for _ in range(rng.choice([0, 1, 1, 2])):
+                    tries = 0
+                    while True:
+                        tries += 1
+                        r = (rng.choice(ids), rng.choice(INDICES) if tries < 30 else 2000 + len(refs))
+                        if r not in refs:
+                            refs.add(r); break
+                    payloads.append([a if a < N_KEY_ADDRS else 0, rng.choice([2 * ADA, 5 * ADA, 12 * ADA, 30 * ADA]) + len(payloads), []])
+                    utxos.append([r[0], r[1], len(payloads) - 1])
+                    inst.append([len(utxos) - 1, rng.choice([0, 0, 1, 2])])
+                    keep.insert(rng.randint(0, len(keep)), len(inst) - 1)
+                cur[a] = keep
+                items.append(['ctxset', a, list(keep)])
+            if rng.random() < 0.85:
+                items.append(['out', rng.randrange(N_KEY_ADDRS), rng.choice([2 * ADA, 5 * ADA, 9 * ADA, 20 * ADA, 40 * ADA]), []])
+            if rng.random() < 0.2 and a in reg_addrs:
+                items.append(['addr', a, False])
+            items.append(['build', dict(change=change if rng.random() < 0.9 else None, merge=bopt['merge'])])
     name, sels = sel_config(rng)
+    if family == 'improve' and rng.random() < 0.8:
+        small = [rng.randrange(2) for _ in range(60)]
+        name, sels = rng.choice([('ri', [dict(k='ri', stream=small)]), ('ri', [dict(k='ri', stream=[0] * 60)]),
+                                 ('default', None), ('ri+lf', [dict(k='ri', stream=small), dict(k='lf')])])
     return dict(utxos=utxos, payloads=payloads, inst=inst,
                 ctx=[[a, l] for a, l in ctx_lists.items() if l or rng.random() < 0.1],
-                selectors=sels, stream=[rng.randrange(1000) for _ in range(300)], items=items, cfg=name)
+                selectors=sels, stream=([rng.randrange(1000) for _ in range(300)] if family != 'improve' or rng.random() < 0.3
+                                         else [rng.randrange(3) for _ in range(300)]), items=items, cfg=name, family=family)
+
+
+def gen_improve(rng):
+    """improvement-phase scenarios of the randomized strategy: K ADA-only UTxOs and M token UTxOs of one address, a request
+    of ADA + tokens that phase 1 covers with a few of them, so that the improvement phase of the token and then the one of
+    ADA both still add UTxOs from what remains (interleaved pool order, low random indices)"""
+    ids = txids(rng, rng.choice([2, 3, 4]))
+    K, M = rng.choice([4, 5, 6]), rng.choice([3, 4, 5])
+    A, B = rng.choice([3, 5, 5, 8]) * ADA, rng.choice([2, 2, 3]) * ADA
+    q = rng.choice([4, 6, 6, 10])
+    tok = rng.choice(TOKENS)
+    utxos, payloads, refs = [], [], set()
+    order = []
+    for k in range(K + M):
+        while True:
+            r = (rng.choice(ids), rng.choice(INDICES + [30 + k]))
+            if r not in refs:
+                refs.add(r); break
+        if k < K:
+            payloads.append([0, A + 10000 * k, []])
+        else:
+            payloads.append([0, B + 10000 * k, mk_ma([(tok, q)])])
+        utxos.append([r[0], r[1], k])
+    inst = [[k, rng.choice([0, 0, 1, 2])] for k in range(K + M)]
+    ada, tk = list(range(K)), list(range(K, K + M))
+    while ada or tk:                                   # interleave
+        if ada and (not tk or rng.random() < 0.55):
+            order.append(ada.pop(0))
+        else:
+            order.append(tk.pop(0))
+    want = rng.choice([2 * A, 2 * A, A + B, 3 * A]) + rng.choice([0, 0, ADA])
+    t = rng.choice([q - 1, q - 1, q // 2 + 1, q + 1])
+    items = [['addr', 0, rng.random() < 0.3], ['out', 1, want, mk_ma([(tok, t)])]]
+    if rng.random() < 0.3:
+        items.insert(0, ['pot', order[-1]])
+    items.append(['build', dict(change=rng.choice([0, 0, 2]), merge=False)])
+    low = [rng.randrange(rng.choice([1, 2, 3, 4])) for _ in range(300)]
+    sels = rng.choice([None, None, [dict(k='ri', stream=low[:80])], [dict(k='ri', stream=low[:80]), dict(k='lf')]])
+    return dict(utxos=utxos, payloads=payloads, inst=inst, ctx=[[0, order]], selectors=sels,
+                stream=low if rng.random() < 0.7 else [rng.randrange(1000) for _ in range(300)], items=items,
+                cfg='default' if sels is None else '+'.join(x['k'] for x in sels), family='improve2')
 
 
 T7 = '07' * 32
@@ -359,11 +460,15 @@ def r_case(case, res):
     utx = clist([f'(mkU {chx(bytes.fromhex(t))} {cn(i)} {cn(p)})' for t, i, p in case['utxos']])
     cx = clist([f'({cn(a)}, {r_nats([ui(k) for k in l])})' for a, l in case['ctx']])
     items, bi = [], 0
+    cur = {a: list(l) for a, l in case['ctx']}
     for it in case['items']:
         k = it[0]
-        if k == 'in':
+        if k == 'ctxset':
+            cur[it[1]] = list(it[2])
+            items.append('RCtx ' + clist([f'({cn(a)}, {r_nats([ui(x) for x in l])})' for a, l in cur.items()]))
+        elif k == 'in':
             items.append(f'ROp (RIn {cnat(ui(it[1]))})')
-        elif k == 'sin':
+        elif k in ('sin', 'psin'):
             items.append(f'ROp (RSIn {cnat(ui(it[1]))})')
         elif k == 'pot':
             items.append(f'ROp (RPot {cnat(ui(it[1]))})')
@@ -423,8 +528,8 @@ def routes_of(case):
     ui = lambda k: case['inst'][k][0]
     r = {}
     for it in case['items']:
-        if it[0] in ('in', 'sin', 'pot', 'exc'):
-            r.setdefault(ui(it[1]), set()).add(it[0][0] if it[0] != 'sin' else 'i')
+        if it[0] in ('in', 'sin', 'psin', 'pot', 'exc'):
+            r.setdefault(ui(it[1]), set()).add(it[0][0] if it[0] not in ('sin', 'psin') else 'i')
         elif it[0] == 'setexc':
             for x in it[1]:
                 r.setdefault(ui(x), set()).add('e')
